@@ -131,7 +131,7 @@ def run(desc, ctx):
             continue
         used.add(key)
         T = rnd.choice((0.05, 0.2, 0.2, 1.0))
-        grid = [0.5 * T, T - 1e-6, T, T + 1e-6, 1.5 * T, 2.5 * T, 3.0 * T, None]
+        grid = [0.0, 0.0, 0.5 * T, T - 1e-6, T, T + 1e-6, 1.5 * T, 2.5 * T, 3.0 * T, None]      # 0.0: answer available at once
         delay = rnd.choice(grid)
         uid = 200 + i
         # the reply carries pattern + filler + uid; the filler decides which pending pattern is its longest prefix
